@@ -239,8 +239,17 @@ class DRec(object):
         return ('err', v.type.__name__, _short(str(v.value)))
 
 
+_ADDR_RE = None
+
+
 def _short(v, n=200):
+    global _ADDR_RE
     r = v if isinstance(v, str) else repr(v)
+    if ' at 0x' in r:
+        if _ADDR_RE is None:
+            import re
+            _ADDR_RE = re.compile(r' at 0x[0-9a-fA-F]+')
+        r = _ADDR_RE.sub(' at 0x', r)
     return r if len(r) <= n else r[:n] + '...'
 
 
